@@ -4,6 +4,8 @@ import x86common as xc
 
 PROP = "C05"
 OWNS = lambda c: c in ("reg", "mem", "xmm", "out-missing-fault", "out-spurious-error", "out-crash")
+OWNS_S = lambda c: c in ("reg", "mem", "rip", "out-missing-fault", "out-spurious-error", "out-crash")
+RSP_MEM = lambda m: "[rsp" in m["text"].lower()
 
 
 def run(tier, seed):
@@ -14,10 +16,13 @@ def run(tier, seed):
         vlib.require_mc_ok(mc, "MC_EA")
         q = tier == "quick"
         res = xc.judge(rep, "ea", 36 if q else 720, seed + 4000, wd, "e", OWNS, jobs=8 if q else 14)
+        # memory operands of PUSH / POP / CALL addressed through RSP: the address is formed with the RSP value from BEFORE the
+        # instruction's own stack adjustment (POP [rsp+d]: after the increment, as the SDM says) - X86.tla's Push/Pop/Call
+        xc.judge(rep, "stack", 24 if q else 400, seed + 4100, wd, "s", OWNS_S, jobs=8 if q else 14, res=res, case_filter=RSP_MEM, skip_dev=True)
         rep.cov["samples"] = [{"family": "ea", "example": sorted(res.distinct)[:3]}]
         xc.finish_cov(rep, res, mc, "LEA r16/r32/r64 and MOV/MOVZX/ADD/MOVUPS loads and stores over base / base+disp8 / base+disp32 / base+index*scale(+disp) / "
                       "index*scale+disp32 / absolute / RIP-relative shapes, all 16 base and 15 index registers, scales 1-8, wrapping register values, "
-                      "FS/GS bases (GS natively through arch_prctl; FS by the specification alone), 0x67 address size. Memory is a position-dependent "
+                      "FS/GS bases (GS natively through arch_prctl; FS by the specification alone), 0x67 address size; PUSH/POP/CALL r/m operands addressed through RSP (stack family). Memory is a position-dependent "
                       "pattern, so a wrong address shows as a wrong loaded value or a write at another place.")
         return rep.finish()
     finally:
@@ -25,4 +30,7 @@ def run(tier, seed):
 
 
 def replay(path, seed):
+    import json
+    if json.load(open(path))["case"]["family"] == "stack":
+        return xc.std_replay(PROP, path, seed, OWNS_S, case_filter=RSP_MEM, skip_dev=True)
     return xc.std_replay(PROP, path, seed, OWNS)
